@@ -90,6 +90,7 @@ struct Wd {
     rvault: [Pubkey; 3],
     rwallet: [Pubkey; 3],
     prefixes: Vec<(String, Ledger, Vec<O>)>,
+    alphabet: Vec<O>,
 }
 
 const REWARD2_FEE_BPS: u16 = 1000;
@@ -97,6 +98,60 @@ const RATE_1: u128 = 1u128 << 64; // one token per second
 const RATE_SMALL: u128 = (1u128 << 64) / 7; // a seventh of a token per second
 const RATE_HUGE: u128 = 1u128 << 120; // dt * rate overflows u128 for dt >= 256; a day of emissions exceeds any vault
 const RATE_BIG: u128 = 1_000_000u128 << 64; // one million tokens per second: position credits stay below u64
+
+/// mints, vaults and wallets of the three rewards of a world
+fn reward_accounts(l: &mut Ledger, w: &StdWorld, label: &str) -> ([Pubkey; 3], [Pubkey; 3], [Pubkey; 3]) {
+    let mut rmint = [Pubkey::default(); 3];
+    let mut rvault = [Pubkey::default(); 3];
+    let mut rwallet = [Pubkey::default(); 3];
+    for i in 0..3 {
+        rmint[i] = key(&format!("{label}/rmint{i}"));
+        if i == 2 {
+            world::create_t22_mint(l, rmint[i], 6, None, &[world::T22Ext::TransferFee { bps: REWARD2_FEE_BPS, max: u64::MAX }]);
+        } else {
+            world::create_spl_mint(l, rmint[i], 6, None);
+        }
+        rvault[i] = world::reward_vault_key(&w.pool, i as u8);
+        rwallet[i] = key(&format!("{label}/rwallet{i}"));
+        world::create_token_account(l, rwallet[i], rmint[i], w.lp.owner, 0);
+    }
+    (rmint, rvault, rwallet)
+}
+
+/// Rewards on a FULL-RANGE-ONLY pool (tick spacing 32768): the usable range [-425984, 425984) is narrower than the price bounds, so a
+/// swap can carry the price OUT of every position's range (in-range liquidity 0, the shared bound tick crossed and its reward growth
+/// outside flipped); positions refreshed out there and again after the price came back must be credited their exact share, once.
+fn build_splash(label: &str) -> Wd {
+    let s = stdworlds::splash_spec(label);
+    let (mut l, w) = world::build_std(&s);
+    let (rmint, rvault, rwallet) = reward_accounts(&mut l, &w, label);
+    let emitting = vec![
+        O::InitReward { index: 0, v2: false },
+        O::Base(Op::Inc { pos: 0, liq: 3_000_000, v2: true }),
+        O::Base(Op::Inc { pos: 1, liq: 1_000_000, v2: false }),
+        O::SetEmissions { index: 0, rate: RATE_1, v2: true },
+        O::Base(Op::Clock(1000)),
+        O::Base(Op::Update { pos: 0 }), // position 0 now carries a non-zero reward checkpoint, position 1 does not
+    ];
+    let mut below = emitting.clone();
+    below.push(O::Base(Op::Swap { a_to_b: true, exact_in: true, amount: u64::MAX >> 8, lim: Lim::Bound, v2: true })); // past the lower bound tick
+    below.push(O::Base(Op::Clock(500)));
+    let mut above = emitting.clone();
+    above.push(O::Base(Op::Swap { a_to_b: false, exact_in: true, amount: u64::MAX >> 8, lim: Lim::Bound, v2: false })); // past the upper bound tick
+    let prefixes = vec![("splash-emitting".to_string(), l.clone(), emitting), ("splash-below-range".to_string(), l.clone(), below), ("splash-above-range".to_string(), l.clone(), above)];
+    let mut a = vec![O::Base(Op::Clock(1000))];
+    for pos in 0..2u8 {
+        a.push(O::Base(Op::Update { pos }));
+    }
+    for a_to_b in [true, false] {
+        a.push(O::Base(Op::Swap { a_to_b, exact_in: true, amount: u64::MAX >> 8, lim: Lim::Bound, v2: a_to_b })); // out of the usable range
+        a.push(O::Base(Op::Swap { a_to_b, exact_in: true, amount: u64::MAX >> 8, lim: Lim::Price(stdworlds::P0), v2: !a_to_b })); // back to the start price
+    }
+    a.push(O::Collect { pos: 0, index: 0, v2: true });
+    a.push(O::Base(Op::Inc { pos: 1, liq: 1_000_000, v2: true }));
+    a.push(O::Base(Op::Dec { pos: 0, part: Part::Half, v2: false }));
+    Wd { name: label.into(), w, rmint, rvault, rwallet, prefixes, alphabet: a }
+}
 
 fn build(label: &str, enc: [Enc; 3], vault0: u64) -> Wd {
     let s = spec(label, enc);
@@ -199,7 +254,7 @@ fn build(label: &str, enc: [Enc; 3], vault0: u64) -> Wd {
         ("over-owed".to_string(), l.clone(), over),
     ];
     let _ = vault0;
-    Wd { name: label.into(), w, rmint, rvault, rwallet, prefixes }
+    Wd { name: label.into(), w, rmint, rvault, rwallet, prefixes, alphabet: alphabet() }
 }
 
 fn worlds(thorough: bool) -> Vec<Wd> {
@@ -207,6 +262,7 @@ fn worlds(thorough: bool) -> Vec<Wd> {
     if thorough {
         v.push(build("c11-fdf", [Enc::Fixed, Enc::Dynamic, Enc::Fixed], 0));
     }
+    v.insert(0, build_splash("c11-splash")); // small; explored first, the rest of the budget goes to the large worlds
     v
 }
 
@@ -582,7 +638,11 @@ impl<'a> Model for M<'a> {
                     let mut bb = b.clone();
                     let o = svm::process(&mut bb, &ix);
                     self.c.backwards_probes.fetch_add(1, Ordering::Relaxed);
-                    if o.ok() || o.code() != Some(ec(ErrorCode::InvalidTimestamp)) {
+                    // the specific refusal is demanded only where the timestamp is the one thing wrong (the same instruction succeeds
+                    // at the present time); where it would be refused anyway (e.g. a swap at the price bound) it just has to fail
+                    let mut now = s.l.clone();
+                    let fine_now = svm::process(&mut now, &ix).ok();
+                    if o.ok() || (fine_now && o.code() != Some(ec(ErrorCode::InvalidTimestamp))) {
                         return Err(format!("operation with a timestamp earlier than the last reward update gave {} instead of InvalidTimestamp", o.short()));
                     }
                 }
@@ -623,15 +683,15 @@ fn root_states(wd: &Wd, m: &M) -> Result<Vec<(String, St)>, String> {
 fn model<'a>(wd: &'a Wd, c: &'a Counters) -> M<'a> {
     // reward 0: exactly one day of RATE_1 emissions (so collects can exhaust the vault: pays min(owed, vault));
     // reward 1: a deep vault (RATE_BIG for a day)
-    M { wd, alphabet: alphabet(), c, fund_on_init: [86_400, 86_400_000_000 * 2, 40_000] }
+    M { wd, alphabet: wd.alphabet.clone(), c, fund_on_init: [86_400, 86_400_000_000 * 2, 40_000] }
 }
 
 pub fn run(ctx: &Ctx) -> Report {
     let mut r = Report::new("C11", "model_checking");
     let ws = worlds(!ctx.tier.is_quick());
     let c = mk_counters();
-    let share = ctx.budget_s * 0.95 / ws.len() as f64;
-    for wd in &ws {
+    for (wi, wd) in ws.iter().enumerate() {
+        let share = ctx.left() * 0.95 / (ws.len() - wi) as f64;
         let m = model(wd, &c);
         let named = match root_states(wd, &m) {
             Ok(x) => x,
